@@ -2,6 +2,7 @@
   wvmodel — the executable Lean model behind a one-line-in / one-line-out protocol.
   Imports only import-free model modules (no Mathlib), so it links as a `lean_exe`.
 -/
+import WowVerif.Model.Dispatch01
 import WowVerif.Model.Dispatch03
 import WowVerif.Model.Dispatch04
 import WowVerif.Model.Dispatch08
@@ -20,6 +21,7 @@ open Wv Wv.Drv
 structure St where
   chain : Wv.Chain.Chain := {}
   ffi : Wv.Ffi.St := {}
+  codec : Wv.Mpq.Codec := []
 
 def step (st : St) (line : String) : St × String :=
   let toks := (line.trimAscii.toString.splitOn " ").filter (· ≠ "")
@@ -31,7 +33,10 @@ def step (st : St) (line : String) : St × String :=
     | none =>
       match c19 st.ffi toks with
       | some (f, r) => ({ st with ffi := f }, r)
-      | none => (st, "bad-op")
+      | none =>
+        match c01 st.codec toks with
+        | some (cd, r) => ({ st with codec := cd }, r)
+        | none => (st, "bad-op")
 
 partial def loop (hin : IO.FS.Stream) (hout : IO.FS.Stream) (st : St) : IO Unit := do
   let line ← hin.getLine
